@@ -47,6 +47,8 @@ def run_one(pid, tier, ctx, replay_key=None):
     rep = Report(pid, tier)
     try:
         mod.run(ctx, rep)
+        from rules import implied
+        implied.fold(ctx, rep, pid)
         if tier == 'thorough' and not os.environ.get('NL_REPO'):
             from rules import thorough
             thorough.extra(ctx, rep, pid)
